@@ -96,32 +96,39 @@ package wire
 // A message addressed to a stream alias is offered only to the channel that is
 // registered under exactly that alias at the time it is dispatched (never to a
 // channel remembered from an earlier message), and to no channel when none is.
+// (C12 - arbitrary frames never hang the read path - shares the lock-pairing obligations of these
+//  loops: a table lock leaked on an input-driven path stops every later subscribe and then every reader)
 // (C15 shares the non-blocking clause: these loops are fed by the single transport reader, which
 //  also carries the pongs - a loop that waits for a slow stream consumer stalls the reader, the pong
 //  is never seen and the keepalive drops a live broker)
 
 //@ func (*ClientConn).readUpstreamChunkAckLoop
-//@   props C07 C15
+//@   props C07 C15 C12
+//@   lockbalance[C12]
 //@   assert[C07,C15] send: nonblocking   // a stream whose consumer is behind loses its own message instead of stalling the dispatcher of every stream
 //@   assert[C07] send: has(c.upstreams.acks, v.StreamIDAlias) && ch == c.upstreams.acks[v.StreamIDAlias] && unheld(c.upstreams.mu)
 
 //@ func (*ClientConn).readDownstreamChunkLoop
-//@   props C07 C15
+//@   props C07 C15 C12
+//@   lockbalance[C12]
 //@   assert[C07,C15] send: nonblocking   // a stream whose consumer is behind loses its own message instead of stalling the dispatcher of every stream
 //@   assert[C07] send: has(c.downstreams.dps, v.StreamIDAlias) && ch == c.downstreams.dps[v.StreamIDAlias] && unheld(c.downstreams.mu)
 
 //@ func (*ClientConn).readDownstreamChunkUnreliableLoop
-//@   props C07 C15
+//@   props C07 C15 C12
+//@   lockbalance[C12]
 //@   assert[C07,C15] send: nonblocking   // a stream whose consumer is behind loses its own message instead of stalling the dispatcher of every stream
 //@   assert[C07] send: has(c.downstreams.dpsUnreliable, v.StreamIDAlias) && ch == c.downstreams.dpsUnreliable[v.StreamIDAlias] && unheld(c.downstreams.mu)
 
 //@ func (*ClientConn).readDownstreamChunkAckCompleteLoop
-//@   props C07 C15
+//@   props C07 C15 C12
+//@   lockbalance[C12]
 //@   assert[C07,C15] send: nonblocking   // a stream whose consumer is behind loses its own message instead of stalling the dispatcher of every stream
 //@   assert[C07] send: has(c.downstreams.ackCompletes, v.StreamIDAlias) && ch == c.downstreams.ackCompletes[v.StreamIDAlias] && unheld(c.downstreams.mu)
 
 //@ func (*ClientConn).readDownstreamMetadataLoop
-//@   props C07 C15
+//@   props C07 C15 C12
+//@   lockbalance[C12]
 //@   assert[C07,C15] send: nonblocking   // a stream whose consumer is behind loses its own message instead of stalling the dispatcher of every stream
 //@   assert[C07] send: has(c.downstreams.metadata, v.StreamIDAlias) && has(c.downstreams.metadata[v.StreamIDAlias], v.SourceNodeID) && ch == c.downstreams.metadata[v.StreamIDAlias][v.SourceNodeID]
 
